@@ -2,9 +2,11 @@
 //verif:use store,corehelp,diamondhelp
 //verif:assume crash model: fail-stop stores. The solver picks the mutating store call (over the metadata, label and blob stores together) at which the process dies and whether that call lands; from then on every store call of the dying run fails without effect; third variant: a transient fault - that one call fails without effect and everything else works. Afterwards the stores are revived and the real observers run. Object writes are atomic (object-store contract)
 //verif:assume bundle ids are ksuids: later uploads get larger ids when they start in a later second (the library's contract; the model clock advances on every reading, the native replay waits for the next second)
-//verif:assume history: repository r with one committed bundle (file a) carrying label v1, uploaded through the real code; the interrupted operation is the upload of a second bundle (files a - same content - and b; one entry per index file, or three so that the list goes out in the final partial flush)
+//verif:assume history: repository r with one committed bundle (file a, or no file at all) carrying label v1, uploaded through the real code; the interrupted operation is the upload of a second bundle (files a - same content - and b; one entry per index file, or three so that the list goes out in the final partial flush)
 //verif:cover VerifC06CommitCrash commit-interrupted
-//verif:cover VerifC06UploadCrash crashed-before-descriptor crashed-between-index-files completed descriptor-landed-then-crash transient-fault final-partial-list
+//verif:assume index packer unit: the real fileIndex.Upload (pack, uploadIndex, writeMetadata) with 2 entries per index file (the field is set by the harness; 1000 in production), 0..5 entries, and a transient fault at a solver-chosen index-file write
+//verif:cover VerifC06PackFaults full-list-write-failed final-list-write-failed no-fault
+//verif:cover VerifC06UploadCrash crashed-before-descriptor crashed-between-index-files completed descriptor-landed-then-crash transient-fault final-partial-list old-bundle-empty
 package core
 
 import (
@@ -13,6 +15,7 @@ import (
 	"github.com/oneconcern/datamon/pkg/core/status"
 	"github.com/oneconcern/datamon/pkg/model"
 	"go.uber.org/zap"
+	"gopkg.in/yaml.v2"
 )
 
 func VerifC06UploadCrash() {
@@ -42,7 +45,14 @@ func VerifC06UploadCrash() {
 	}
 	ca := []byte("content-a")
 	cb := []byte("content-b")
-	old, err := upload(map[string][]byte{"a": ca}, []string{"a"})
+	oldFiles, oldOrder := map[string][]byte{"a": ca}, []string{"a"}
+	oldEmpty := vChoose("oldBundleEmpty", 2) == 1
+	if oldEmpty {
+		// the committed bundle holds no file: its descriptor is the only (and first) key of the repository's bundles
+		oldFiles, oldOrder = map[string][]byte{}, nil
+		vCover("old-bundle-empty")
+	}
+	old, err := upload(oldFiles, oldOrder)
 	vAssert(err == nil, "first-upload")
 	lab := NewLabel(LabelDescriptor(model.NewLabelDescriptor(model.LabelName("v1"), model.LabelContributor(model.Contributor{Name: "n", Email: "e@x.io"}))))
 	vAssert(lab.UploadDescriptor(ctx, old) == nil, "label-set")
@@ -148,7 +158,9 @@ func VerifC06UploadCrash() {
 	dst := newVStore("dst")
 	down := NewBundle(Repo("r"), ContextStores(stores), ConsumableStore(dst), BundleID(old.BundleID), Logger(zap.NewNop()), ConcurrentFileDownloads(2), ConcurrentFilelistDownloads(2))
 	vAssert(implPublish(ctx, down, E, nil) == nil, "committed-bundle-still-downloads")
-	vAssert(string(dst.data["a"]) == string(ca), "committed-bundle-content-intact")
+	if !oldEmpty {
+		vAssert(string(dst.data["a"]) == string(ca), "committed-bundle-content-intact")
+	}
 	l2 := NewLabel(LabelDescriptor(model.NewLabelDescriptor(model.LabelName("v1"))))
 	vAssert(l2.DownloadDescriptor(ctx, NewBundle(Repo("r"), ContextStores(stores), Logger(zap.NewNop())), true) == nil && l2.Descriptor.BundleID == old.BundleID, "label-still-resolves")
 	// a retried upload succeeds and becomes the latest
@@ -240,4 +252,69 @@ func VerifC06CommitCrash() {
 	probe := NewBundle(Repo("r"), ContextStores(stores), BundleID(newID), Logger(zap.NewNop()))
 	derr := DownloadMetadata(ctx, probe)
 	vAssert((derr == nil) == complete, "bundle-fetchable-iff-complete")
+}
+
+// VerifC06PackFaults: the index packer shared by bundle uploads, split uploads and diamond commits, with a store
+// fault on one of its index-file writes: it reports failure whenever a write failed, and when it reports success
+// the count it returns (recorded in the descriptor) is the number of index files stored, holding every entry in order.
+func VerifC06PackFaults() {
+	vBudget(100000000)
+	meta := newVStore("meta")
+	stores := vCtxStoresKind(meta, meta, newVStore("blob"), vChoose("storeWithCRC", 2) == 1)
+	f := newFileIndex(stores, fileIndexMeta(stores.Metadata()),
+		fileIndexPather(newUploadBundleIterator("r", model.BundleDescriptor{ID: vB1})), fileIndexLogger(zap.NewNop()))
+	f.entriesPerFile = 2
+	n := vChoose("entries", 6)
+	faultAt := vInt("faultAt", 0, 3) // 0: none; k: the k-th index-file write fails
+	puts := 0
+	failedFull, failedFinal := false, false
+	meta.fail = func(op, key string) error {
+		if op == "put" {
+			puts++
+			if puts == faultAt {
+				if puts*2 <= n {
+					failedFull = true
+				} else {
+					failedFinal = true
+				}
+				return errVFault
+			}
+		}
+		return nil
+	}
+	in := make(chan filePacked, 8)
+	for i := 0; i < n; i++ {
+		in <- filePacked{name: "f" + string(rune('0'+i)), hash: "h" + string(rune('0'+i)), size: uint64(i)}
+	}
+	close(in)
+	count, err := f.Upload(in, make(chan errorHit), make(chan struct{}))
+	meta.fail = nil
+	switch {
+	case failedFull:
+		vCover("full-list-write-failed")
+	case failedFinal:
+		vCover("final-list-write-failed")
+	default:
+		vCover("no-fault")
+		vAssert(err == nil, "pack-without-fault-succeeds")
+	}
+	if failedFull || failedFinal {
+		vAssert(err != nil, "pack-hit-by-a-failed-index-write-reports-failure")
+	}
+	if err != nil {
+		return
+	}
+	vAssert(int(count) == (n+1)/2, "count-is-the-number-of-index-files")
+	k := 0
+	for i := uint64(0); i < count; i++ {
+		b, ok := meta.data[model.GetArchivePathToBundleFileList("r", vB1, i)]
+		vAssert(ok, "every-counted-index-file-is-stored")
+		var be model.BundleEntries
+		vAssert(yaml.Unmarshal(b, &be) == nil, "index-file-decodes")
+		for _, e := range be.BundleEntries {
+			vAssert(e.NameWithPath == "f"+string(rune('0'+k)) && e.Hash == "h"+string(rune('0'+k)), "entries-in-order-none-lost")
+			k++
+		}
+	}
+	vAssert(k == n, "entries-in-order-none-lost")
 }
